@@ -11,7 +11,9 @@ import time
 import overlay as ov_mod
 from overlay import InfraError, log, sh, VERIF
 
-REQUESTS = [b"GET / HTTP/1.1\r\n\r\n", b"POST /a HTTP/1.0\nHost: x\nA: b\n\n"]
+# one complete request per supported method (the nine of the property), mixed line ends / headers
+METHODS = [b"GET", b"PUT", b"POST", b"HEAD", b"DELETE", b"CONNECT", b"OPTIONS", b"TRACE", b"PATCH"]
+REQUESTS = [m + b" / HTTP/1.1\r\n\r\n" for m in METHODS] + [b"POST /a HTTP/1.0\nHost: x\nA: b\n\n", b"head /\xff HTTP/1.1\r\nA: b\r\n\r\n"]
 
 
 class PseudoHarness(object):
@@ -22,24 +24,26 @@ class PseudoHarness(object):
         self.bounds = ["date text: every byte string of length 0..=40 without CR / LF (41 length classes x 5 QF_BV queries), all other response bytes are "
                        "constants of the source; properties: status line 'HTTP/1.1 401', empty line present, WWW-Authenticate line in the head, "
                        "Content-Length line in the head, its decimal value == number of bytes after the empty line"]
-        self.stubs = ["chrono::Utc::now().to_rfc2822() -> arbitrary text without CR / LF (contract)"]
+        self.stubs = ["chrono::Utc::now().to_rfc2822() -> arbitrary text without CR / LF (contract)",
+                      "the condition of an `if c { A } else { B }` that selects a response constant -> free boolean (every variant must satisfy the claim; a violating variant is only reported when one of the eleven concrete requests reproduces it natively)"]
         self.assumes = ["the response does not depend on the request once the parser is in CONTENT state: the translator accepts only arguments that are "
-                        "constants, lengths of constants or the date (anything else: inconclusive); validated natively on two different requests"]
+                        "constants, lengths of constants or the date (anything else: inconclusive); validated natively on eleven requests (all nine methods)"]
         self.out = ["which requests reach CONTENT state (parser lemmas c13_http_step_* / c11_http_stream_cuts_*); header field case-insensitivity"]
         self.covers = []
         self.known = []
         self.file = os.path.join(VERIF, "lib", "c13_z3.py")
 
 
-def native_response(ovdir, req):
+def native_responses(ovdir, reqs):
+    """the REAL proto::http::repl of the overlay's tree on each request -> list of bytes / None"""
     rc, out, wall = sh(["cargo", "test", "--offline", "--bin", "masscanned", "verif_c13_native", "--", "--exact",
                         "proto::http::verif_c13_native::verif_c13_native", "--nocapture"],
-                       cwd=ovdir, env={"CARGO_TARGET_DIR": ov_mod.NATIVE_TARGET, "VERIF_C13_REQ": req.hex(),
+                       cwd=ovdir, env={"CARGO_TARGET_DIR": ov_mod.NATIVE_TARGET, "VERIF_C13_REQ": ",".join(r.hex() for r in reqs),
                                        "RUSTFLAGS": "-Awarnings"}, timeout=1200, check=False)
-    m = re.search(r"VERIF_C13_RESP=(\w+)", out)
-    if not m:
+    m = re.findall(r"VERIF_C13_RESP=(\w+)", out)
+    if len(m) != len(reqs):
         raise InfraError("C13 native run did not run:\n" + out[-3000:])
-    return None if m.group(1) == "none" else bytes.fromhex(m.group(1))
+    return [None if x == "none" else bytes.fromhex(x) for x in m]
 
 
 def oracle(resp):
@@ -75,67 +79,70 @@ def run_c13(ovdir, scratch, info, known, known_keys, tier, results, verdict, sel
     t0 = time.time()
     res = {"harness": ph.name, "status": None, "failed": [], "covers": {}, "stats": {}, "props": {}, "duration_s": None}
     results[ph.name] = res
-    reals = [native_response(ovdir, r) for r in REQUESTS]
+    path = os.path.join(VERIF, "replays", "C13-z3-response-text.json")
+    os.makedirs(os.path.dirname(path), exist_ok=True)
+    reals = native_responses(ovdir, REQUESTS)
     if any(r is None for r in reals):
+        # a complete request of the validation set is not answered at all: reported from the
+        # native run itself (the solver-level statement of this is the parser lemmas' business)
+        miss = [rq.hex() for rq, rl in zip(REQUESTS, reals) if rl is None]
         res["status"] = "failed"
-        res["failed"].append({"description": "C13: complete HTTP request not answered by proto::http::repl", "at": "src/proto/http.rs", "category": "native"})
-        path = os.path.join(VERIF, "replays", "C13-z3-response-text.json")
-        os.makedirs(os.path.dirname(path), exist_ok=True)
-        json.dump({"property": "C13", "engine": "c13-text", "requests": [r.hex() for r in REQUESTS], "failed": ["answered"],
-                   "repo_head": info.get("repo_head")}, open(path, "w"), indent=1)
+        res["failed"].append({"description": "C13: complete HTTP request not answered by proto::http::repl: %r" % bytes.fromhex(miss[0]),
+                              "at": "src/proto/http.rs", "category": "native"})
+        json.dump({"property": "C13", "engine": "c13-text", "requests": miss, "failed": ["answered"], "repo_head": info.get("repo_head"),
+                   "reproduced": True}, open(path, "w"), indent=1)
         verdict.violations.append({"harness": ph.name, "replay": path, "failed": res["failed"]})
         res["duration_s"] = round(time.time() - t0, 1)
         return
-    outs = []
-    for k, real in enumerate(reals):
-        cmd = ["python3-vt", os.path.join(VERIF, "lib", "c13_z3.py"), os.path.join(ovdir, "src", "proto", "http.rs"), real.hex()]
-        if tier != "quick" and k == 0:
-            cmd.append("crosscheck")
-        if k > 0:
-            cmd.append("validate-only")
-        p = subprocess.run(cmd, stdout=subprocess.PIPE, stderr=subprocess.PIPE, universal_newlines=True, timeout=1200)
-        try:
-            outs.append(json.loads(p.stdout))
-        except Exception:
-            res["status"] = "inconclusive"
-            verdict.inconclusive.append("c13_z3_response_text: engine produced no result: %s" % p.stderr[-1500:])
-            res["duration_s"] = round(time.time() - t0, 1)
-            return
-    out = outs[0]
-    allq = [q for o in outs for q in o["queries"]]
+    cmd = ["python3-vt", os.path.join(VERIF, "lib", "c13_z3.py"), os.path.join(ovdir, "src", "proto", "http.rs"),
+           ",".join("none" if r is None else r.hex() for r in reals)]
+    if tier != "quick":
+        cmd.append("crosscheck")
+    p = subprocess.run(cmd, stdout=subprocess.PIPE, stderr=subprocess.PIPE, universal_newlines=True, timeout=1800)
+    try:
+        out = json.loads(p.stdout)
+    except Exception:
+        res["status"] = "inconclusive"
+        verdict.inconclusive.append("c13_z3_response_text: engine produced no result: %s" % p.stderr[-1500:])
+        res["duration_s"] = round(time.time() - t0, 1)
+        return
+    allq = out["queries"]
     nq = len(allq)
     good = len([q for q in allq if (q["result"] == "sat") == (q["name"] in ("validate", "witness")) and q["result"] in ("sat", "unsat")])
     res["props"] = {"total_properties": nq, "passed": good}
     res["n_checks"] = nq
-    res["stats"] = {"runtime_decision_procedure_s": round(sum(o.get("solver_s") or 0 for o in outs), 2),
-                    "runtime_symex_s": round(sum(o.get("encode_s") or 0 for o in outs), 2), "vccs_generated": nq}
-    res["z3"] = {"solver": out.get("solver"), "encoded": out.get("encoded"), "crosscheck": out.get("crosscheck"), "date_max": out.get("date_max")}
+    res["stats"] = {"runtime_decision_procedure_s": out.get("solver_s"), "runtime_symex_s": out.get("encode_s"), "vccs_generated": nq}
+    res["z3"] = {"solver": out.get("solver"), "encoded": out.get("encoded"), "crosscheck": out.get("crosscheck"), "date_max": out.get("date_max"),
+                 "variants": out.get("variants")}
     res["sample_checks"] = [{"description": "z3 date length %s: %s" % (q.get("length"), q["name"]), "status": q["result"], "at": "lib/c13_z3.py"} for q in allq[-3:]]
-    val_ok = all(any(q["name"] == "validate" and q["result"] == "sat" for q in o["queries"]) for o in outs)
-    res["covers"]["encoding reproduces the real response bytes (2 requests)"] = "Satisfied" if val_ok else "Unsatisfiable"
+    nval = len([q for q in allq if q["name"] == "validate"])
+    val_ok = nval == len(REQUESTS) and all(q["result"] == "sat" for q in allq if q["name"] == "validate")
+    res["covers"]["encoding reproduces the real response bytes (%d requests, all nine methods)" % len(REQUESTS)] = "Satisfied" if val_ok else "Unsatisfiable"
     res["covers"]["date assumptions satisfiable"] = "Satisfied" if any(q["name"] == "witness" and q["result"] == "sat" for q in allq) else "Unsatisfiable"
-    inc = [m for o in outs for m in o.get("inconclusive", [])]
+    inc = out.get("inconclusive", [])
     viol = out.get("violations") or []
-    if inc:
-        res["status"] = "inconclusive"
-        verdict.inconclusive.append("c13_z3_response_text: %s" % inc[:2])
-    elif viol:
+    if viol:
         res["status"] = "failed"
-        nat = oracle(reals[0])
         for v in viol:
-            res["failed"].append({"description": "C13: %s (for every date text, e.g. %r)" % (v["what"], bytes.fromhex(v["date_hex"])),
+            res["failed"].append({"description": "C13: %s (variant %s of the response, date text e.g. %r)" % (v["what"], v.get("variant"), bytes.fromhex(v["date_hex"])),
                                   "at": "src/proto/http.rs (format! of the 401 response)", "category": "z3"})
         names = [v["name"] for v in viol]
-        path = os.path.join(VERIF, "replays", "C13-z3-response-text.json")
-        os.makedirs(os.path.dirname(path), exist_ok=True)
-        rep = {"property": "C13", "engine": "c13-text", "requests": [r.hex() for r in REQUESTS], "failed": names,
-               "real_response": reals[0].hex(), "native_oracle_failed": nat, "repo_head": info.get("repo_head"),
-               "reproduced": bool(set(nat) & set(names))}
+        # replay: the native oracle on the real bytes of every request of the set
+        nat = {}
+        for rq, rl in zip(REQUESTS, reals):
+            bad = oracle(rl)
+            if set(bad) & set(names):
+                nat[rq.hex()] = bad
+        rep = {"property": "C13", "engine": "c13-text", "requests": sorted(nat) or [r.hex() for r in REQUESTS], "failed": names,
+               "native_oracle_failed": nat, "repo_head": info.get("repo_head"), "reproduced": bool(nat)}
         json.dump(rep, open(path, "w"), indent=1)
         if rep["reproduced"]:
             verdict.violations.append({"harness": ph.name, "replay": path, "failed": res["failed"]})
         else:
-            verdict.inconclusive.append("c13_z3_response_text: solver violation %s did not reproduce on the real response bytes (native oracle: %s)" % (names, nat))
+            verdict.inconclusive.append("c13_z3_response_text: solver violation %s did not reproduce on the real response bytes of the %d requests" % (names, len(REQUESTS)))
+    elif inc:
+        res["status"] = "inconclusive"
+        verdict.inconclusive.append("c13_z3_response_text: %s" % inc[:2])
     else:
         res["status"] = "success"
         verdict.passed.append(ph.name)
@@ -145,7 +152,7 @@ def run_c13(ovdir, scratch, info, known, known_keys, tier, results, verdict, sel
 def replay(rep, ovdir):
     """re-run the recorded requests through the real code of the current tree -> True when a recorded failure is still there"""
     bad = set()
-    for r in rep["requests"]:
-        bad |= set(oracle(native_response(ovdir, bytes.fromhex(r))))
+    for r in native_responses(ovdir, [bytes.fromhex(r) for r in rep["requests"]]):
+        bad |= set(oracle(r))
     log("replay C13 response text: native oracle reports %s (recorded: %s)" % (sorted(bad), rep["failed"]))
     return bool(bad & set(rep["failed"]))
